@@ -60,8 +60,9 @@ class Check(PropertyCheck):
                   "that the reply is solicited). `history_preserves` is a theorem about the C27 layer model (tied to the "
                   "code by the C27 check) with acts = []: runs in which addons modify flows are outside C26's statement. "
                   "Delivery is proved for plain ASCII labels only (labels with xn-- or non-ASCII bytes depend on the idna "
-                  "parameter; the oracle's `deliverable` is narrower still). No theorem covers a compressing *encoder* "
-                  "(DNSMessage.packed does not compress); `compressed_name_read` states what any such encoder may rely on.")
+                  "parameter; the oracle's `deliverable` is narrower still). The compressing encoder is covered at name level "
+                  "only (`reference_compressor_read`); there is no theorem about a whole-message compressing encoder "
+                  "(DNSMessage.packed does not compress).")
     technique = "Lean 4 proof (parse agreement between the cache-based decoder and the specification decoder) + differential correspondence through the real DNSLayer"
     rule = ("server-style messages from an independent compressing encoder: compressed names inside CNAME/NS/PTR/MX/SOA/SRV/"
             "NAPTR/RP/... data, ACE/IDN labels, TXT/unknown/A/AAAA/OPT records with pointer-like bytes, SOA serials and MX "
@@ -193,6 +194,15 @@ class Check(PropertyCheck):
         # messages whose names first appear beyond the reach of a 14-bit compression pointer (offset >= 16384)
         for c in self._large_cases(): yield c
         while True:
+            if rng.chance(0.03):     # the reference compressing encoder (Lean `cnames`) against the harness's Compressor
+                base = [rng.pick(HOST + ODD) for _ in range(rng.randint(0, 3))]
+                names = []
+                for _ in range(rng.randint(1, 6)):
+                    r = rng.randint(0, 9)
+                    n = list(base) if r < 3 else [rng.pick(HOST)] + list(base) if r < 7 else [rng.pick(HOST + ODD) for _ in range(rng.randint(0, 4))]
+                    names.append([hx(l) for l in n if 0 < len(l) < 64])
+                yield {"kind": "cnames", "names": names}
+                continue
             tr = rng.pick(["udp", "tcp"])
             if rng.chance(0.004 if tier == "quick" else 0.002):
                 late = [rng.pick(HOST) for _ in range(rng.randint(1, 4))]
@@ -226,6 +236,13 @@ class Check(PropertyCheck):
         return struct.pack("!HHHHHH", id_, 0x0100, len(qs), 0, 0, 0) + b"".join(D.wire_name(l) + struct.pack("!HH", t, c) for l, t, c in qs)
 
     def impl(self, case):
+        if case.get("kind") == "cnames":
+            c = D.Compressor(True); offs = []
+            for n in case["names"]:
+                offs.append(len(c.buf)); c.name([unhx(l) for l in n])
+            obs = {"state": "cnames", "out": [hx(bytes(c.buf))], "offs": offs}
+            self._last = (json.dumps(case, sort_keys=True), obs)
+            return obs
         tr = case["transport"]
         msgs = [unhx(h) for h in case["msgs_hex"]]
         data = b"".join(frame(m) for m in msgs) if tr == "tcp" else msgs[0]
@@ -270,6 +287,16 @@ class Check(PropertyCheck):
 
     # ------------------------------------------------------------------ the property
     def oracle(self, case, obs):
+        if obs["state"] == "cnames":
+            # `reference_compressor_read` asked of the harness's encoder: the specification reads every name back
+            buf, fails = unhx(obs["out"][0]), []
+            for n, off in zip(case["names"], obs["offs"]):
+                try:
+                    got = D.ref_name(buf, off)[0]
+                except D.RefError as e:
+                    got = f"<{e}>"
+                if got != [unhx(l) for l in n]: fails.append(f"compressor: name at {off} reads {got} instead of {n}")
+            return fails
         if obs["state"].startswith("crashed"): return [f"the layer raised {obs['state'][8:]} while forwarding"]
         if obs["state"] == "query-not-forwarded":
             return ["the client's query for this reply (plain host-name labels) was not forwarded to the server"]
@@ -298,6 +325,8 @@ class Check(PropertyCheck):
         return self.impl(case)
 
     def model_lines(self, case):
+        if case.get("kind") == "cnames":
+            return ["cnames " + ",".join(".".join(n) if n else "-" for n in case["names"])]
         obs = self._obs_for(case)
         if obs["state"] == "query-not-forwarded": return None
         msgs = [unhx(h) for h in case["msgs_hex"]]
@@ -312,6 +341,7 @@ class Check(PropertyCheck):
         return list(replies)
 
     def impl_view(self, case, obs):
+        if obs["state"] == "cnames": return [obs["out"][0]]
         st = obs["state"].split(":")[0]
         if st == "crashed": f = "crashed"
         elif case["transport"] == "tcp": f = st + " " + (",".join(hx(frame(unhx(h))) for h in obs["out"]) or "-")
@@ -321,10 +351,13 @@ class Check(PropertyCheck):
 
     # ------------------------------------------------------------------ evidence
     def classify(self, case, obs):
+        if case.get("kind") == "cnames": return json.dumps(case, sort_keys=True) if case["names"] else None
         if all(D.ref_view(unhx(h)) == "err" for h in case["msgs_hex"]): return None
         return json.dumps(case, sort_keys=True)
 
     def branches(self, case, obs):
+        if case.get("kind") == "cnames":
+            return ["cnames:" + ("has-pointer" if any(c >= 0xC0 for c in unhx(obs["out"][0])) else "no-pointer")]
         out = [f"{case['transport']}:{case['dir']}:{obs['state'].split(':')[0]}"]
         for h in case["msgs_hex"]:
             b = unhx(h)
@@ -338,6 +371,7 @@ class Check(PropertyCheck):
         return out
 
     def neighbours(self, case, rng):
+        if case.get("kind") == "cnames": return
         for j, h in enumerate(case["msgs_hex"]):
             b = unhx(h)
             for i in range(12, len(b)):
